@@ -678,8 +678,15 @@ func c15Play(scn *c15Scn, vseed uint64) (run *c15Run, wires map[string]*c15Wire,
 	var endErr error
 	timerSeen := false
 	start := time.Now()
+	skipNext := false
 	for ci, call := range scn.Calls {
 		stop := false
+		if skipNext {
+			// this call (a timeout or a read error) was delivered together with the data of the previous Read
+			skipNext = false
+			continue
+		}
+		mergedEnd := false
 		func() {
 			defer func() {
 				if r := recover(); r != nil {
@@ -724,12 +731,34 @@ func c15Play(scn *c15Scn, vseed uint64) (run *c15Run, wires map[string]*c15Wire,
 				}
 				if call.D == readDir {
 					inner.rd, inner.rdErr = append([]byte(nil), chunk...), nil
+					// io.Reader: a Read may return n > 0 together with an error (crypto/tls does when the
+					// close_notify alert is right behind the last record; a deadline can fire mid-copy).  The
+					// n bytes were read before the error, so this is the same behaviour as the data call
+					// followed by the error call.  Some variants deliver a following timeout / read error
+					// that way.
+					var wantErr error
+					if ci+1 < len(scn.Calls) && len(chunk) > 0 && vseed%3 != 0 && rnd.IntN(2) == 0 {
+						switch scn.Calls[ci+1].E {
+						case "timeout":
+							wantErr = c15Timeout{}
+						case "readerr":
+							e := &c15EndErr{kind: "readerr"}
+							endErr = e
+							wantErr = e
+							mergedEnd = true
+						}
+						if wantErr != nil {
+							inner.rdErr = wantErr
+							skipNext = true
+						}
+					}
 					buf := make([]byte, len(chunk)+rnd.IntN(9))
 					for i := range buf {
 						buf[i] = 0xEE
 					}
 					n, err := conn.Read(buf)
-					if n != len(chunk) || err != nil || !bytes.Equal(buf[:n], chunk) {
+					inner.rdErr = nil
+					if n != len(chunk) || err != wantErr || !bytes.Equal(buf[:n], chunk) {
 						run.Transp = append(run.Transp, fmt.Sprintf("call %d Read: n=%d err=%v want n=%d", ci, n, err, len(chunk)))
 					}
 					for _, b := range buf[n:] {
@@ -834,7 +863,7 @@ func c15Play(scn *c15Scn, vseed uint64) (run *c15Run, wires map[string]*c15Wire,
 			}
 		}
 		// a retryable trace must be held back until the timer / the end of the connection
-		if !stop && !timerSeen && call.E == "" && time.Since(start) < 2*time.Second {
+		if !stop && !timerSeen && call.E == "" && !mergedEnd && time.Since(start) < 2*time.Second {
 			coll.mu.Lock()
 			for _, t := range coll.got {
 				if isRetryable(t.Err) {
